@@ -4,8 +4,8 @@
 # replay files of the run go to /tmp/seedwt/<lane>.out.  Prints the verdict lines.  The worktree is kept for the next call of the lane
 # (tools/seed_matrix.sh removes all lanes at the end).
 P="$1"; ID="$2"; TIER="${3:-quick}"; LANE="${4:-$ID}"
-W=/tmp/seedwt/$LANE; O=/tmp/seedwt/$LANE.out
-mkdir -p /tmp/seedwt
+R="${SEEDWT:-/tmp/seedwt}"; W=$R/$LANE; O=$R/$LANE.out
+mkdir -p "$R"
 HEAD=$(git -C /repo rev-parse HEAD)
 if [ ! -d "$W" ]; then git -C /repo worktree add -q --detach "$W" "$HEAD" || exit 9; fi
 ( cd "$W" && git checkout -q -- . && git clean -fdq && git checkout -q --detach "$HEAD" ) || exit 9
